@@ -61,6 +61,8 @@ def rebuild_sites(prog):
 
 
 def check(prog, run):
+    from . import c11 as _c11n
+    _c11n.check_null_default(prog, run, "N1", prefix="py_gql.schema.transforms", floor=2)   # = C11.N1 for the rebuilding transforms
     check_heal_to_fixpoint(prog, run, "H2")
     # ---- C1 copy-constructor completeness
     r = run.rule("C1", "every site that rebuilds a schema element from an existing one (constructor call copying >= 2 attributes "
